@@ -286,6 +286,11 @@ class X:
                 and e.value.value.id == "self" and e.value.attr == "epistemic_state"
                 and isinstance(e.slice, ast.Constant) and isinstance(e.slice.value, str)):
             return e.slice.value
+        # a plain function that receives the epistemic state as its parameter `epistemic_state`
+        if (isinstance(e, ast.Subscript) and isinstance(e.value, ast.Name) and e.value.id == "epistemic_state" and self.ctx.fn.cls is None
+                and any(p[0] == "epistemic_state" and p[1] == "esdict" for p in self.ctx.fn.params)
+                and isinstance(e.slice, ast.Constant) and isinstance(e.slice.value, str)):
+            return e.slice.value
         return None
 
     def query_slot(self, e):
@@ -793,6 +798,9 @@ class X:
         if name == "bool":
             c, b = self.truth(e.args[0], env)
             return c, "bool", b
+        if name in ("PEntailment", "SystemZ", "SystemW", "SystemWZ3", "CInference", "LexInf", "LexInfZ3") and len(e.args) == 1 and not e.keywords \
+                and isinstance(e.args[0], ast.Name) and env.get(e.args[0].id) == "esdict":
+            return "Op" + name, "opclass", []          # the operator object is identified by its class
         if name == "str" and self.ctx.consts.get("@strings") and len(e.args) == 1 and not e.keywords:
             c, t, b = self.tx(e.args[0], env)
             if t == "string":
@@ -1988,7 +1996,7 @@ class B:
 
 # ------------------------------------------------------------------------------------------------ driver
 COQ_TYPES = {"ptree_atom": "ptree", "bool": "bool", "int": "Z", "form": "form", "cond": "cond", "solver": "solver", "str": "unit", "none": "unit",
-             "bb": "pybase", "deadline": "unit", "wcnf": "wcnf", "sclause": "sclause", "optimizer": "unit", "tseitin": "unit", "world": "world", "zopt": "zopt", "optint": "(option Z)", "preocf": "(wdict (option Z))", "preocf_s": "((wdict (option Z)) * (list Z))", "string": "string", "ptree": "ptree", "pool": "unit", "iterm": "iterm", "icon": "icon", "isolver": "(list icon)", "symidx": "symidx", "float": "unit"}
+             "bb": "pybase", "deadline": "unit", "wcnf": "wcnf", "sclause": "sclause", "optimizer": "unit", "tseitin": "unit", "world": "world", "zopt": "zopt", "optint": "(option Z)", "preocf": "(wdict (option Z))", "preocf_s": "((wdict (option Z)) * (list Z))", "string": "string", "esdict": "unit", "opclass": "opclass", "ptree": "ptree", "pool": "unit", "iterm": "iterm", "icon": "icon", "isolver": "(list icon)", "symidx": "symidx", "float": "unit"}
 
 
 def coq_type(t):
@@ -2418,6 +2426,11 @@ TARGETS = [
         Fn("visitNegation", "py_visitNegation", [("ctx", "ptree")], cls="myVisitor"),
         Fn("visitParen", "py_visitParen", [("ctx", "ptree")], cls="myVisitor"),
         Fn("visitVar", "py_visitVar", [("ctx", "ptree")], cls="myVisitor", drop_attr_calls=["sigcheck"]),
+    ]),
+    dict(out="SrcDisp", file="inference/inference_manager.py", requires=[], extra_imports=["PyStr"], consts={"@strings": True}, funcs=[
+        Fn("create_inference_instance", "py_create_inference_instance", [("epistemic_state", "esdict")],
+           state=[("inference_system", "es_inference_system", "string"), ("pmaxsat_solver", "es_pmaxsat_solver", "string"), ("smt_solver", "es_smt_solver", "string"),
+                  ("belief_base", "es_belief_base", "bb")]),
     ]),
     dict(out="SrcP", file="inference/p_entailment.py", requires=["SrcCond", "SrcCons"], funcs=[
         Fn("_inference", "py_PEntailment_inference", [("query", "cond"), ("weakly", "bool"), ("deadline", "deadline")],
